@@ -97,9 +97,7 @@ Theorem C04_short_lines_give_h1 : forall H A c,
   0 < H -> 0 < A ->
   (forall o, 0 <= o <= lenZ c -> line_len c o <= (A - 1) * H) ->
   all_within_budget H A c.
-Proof.
-  intros H A c HH HA Hl o Ho. apply short_line_within_budget; auto.
-Qed.
+Proof. exact short_lines_give_h1. Qed.
 
 (* list form of (h2)/(h3) implies the offset form used inside the proof *)
 Theorem C04_time_ordered_offsets : forall ts c,
